@@ -59,7 +59,7 @@ def run(res, replay=None):
             n = len(inp["gens"])
             qs = sorted({rng.below(n) for _ in range(3)})
             inputs.append((inp, qs))
-    wd = os.path.join(C.CACHE, "run", "c17")
+    wd = C.rundir("c17")
     os.makedirs(wd, exist_ok=True)
     cf = os.path.join(wd, "nn.cases")
     with open(cf, "w") as f:
